@@ -521,14 +521,23 @@ class Ctx:
                 return
             break
 
-    def state_machine(self, sub: str, machine_cls, max_examples: int, step_count: int, tally: Optional[Tally] = None, shard: Any = 0, max_rounds: int = 3):
-        """Run a RuleBasedStateMachine.  The machine must expose ``self.ops`` (plain-JSON op list) and raise Fail
-        from rules/invariants; class attribute ``vp_ctx``/``vp_tally``/``vp_tolerated`` are injected."""
+    def state_machine(self, sub: str, machine_cls, max_examples: int, step_count: int, tally: Optional[Tally] = None, shard: Any = 0,
+                      max_rounds: int = 3, minimise: str = "ddmin", oracle: Optional[Callable[[Any], None]] = None, ddmin_budget: int = 600):
+        """Run a RuleBasedStateMachine built by ``make_machine``.  ``minimise``: "ddmin" (default) = Hypothesis only
+        generates and a failing history is minimised by deterministic delta debugging over its op list, re-judged by
+        ``oracle`` (default: the sub-check's replay oracle found on the module) - seconds instead of Hypothesis's
+        shrinker, which can take minutes per bucket on long histories; "hypothesis" = use Hypothesis's shrink phase."""
         import hypothesis
-        from hypothesis import HealthCheck, settings
+        from hypothesis import HealthCheck, Phase, settings
         from hypothesis.stateful import run_state_machine_as_test
 
         t = tally if tally is not None else self.tally
+        if oracle is None:
+            for s in getattr(self.module, "SUBCHECKS", []):
+                if s.name == sub:
+                    oracle = s.oracle
+        use_ddmin = minimise == "ddmin" and oracle is not None
+        phases = [Phase.explicit, Phase.reuse, Phase.generate, Phase.target] + ([] if use_ddmin else [Phase.shrink])
         tolerated: set = set()
         for rnd in range(max_rounds):
             ns = {"vp_ctx": self, "vp_tally": t, "vp_tolerated": tolerated, "vp_sub": sub}
@@ -546,16 +555,74 @@ class Ctx:
                         report_multiple_bugs=False,
                         suppress_health_check=list(HealthCheck),
                         print_blob=False,
+                        phases=phases,
                     ),
                 )
             except Fail as f:
-                self.judge(sub, f.case, f, t)
+                case, fmin = f.case, f
+                if use_ddmin and isinstance(f.case, dict) and isinstance(f.case.get("ops"), list):
+                    ops, f2 = ddmin_ops(oracle, f.case["ops"], f.clause, f.klass, budget=ddmin_budget)
+                    if f2 is not None:
+                        case, fmin = dict(f.case, ops=ops), f2
+                self.judge(sub, case, fmin, t)
                 tolerated.add(f"{sub}|{f.clause}|{f.klass}")
                 continue
             except hypothesis.errors.Flaky as e:
                 t.errors.append(f"{sub}: flaky under Hypothesis: {e}")
                 return
             break
+
+
+def _judge_ops(oracle, ops):
+    """Run a history oracle; return the Fail it raises (library exceptions converted), else None."""
+    try:
+        oracle({"ops": ops})
+    except Fail as f:
+        return f
+    except Exception as e:
+        if not lib_raised(e):
+            raise
+        return Fail("no_unexpected_exception", observed=f"{type(e).__name__}: {e}", expected="no exception", klass=exc_klass(e))
+    return None
+
+
+def ddmin_ops(oracle, ops: list, clause: str, klass: str, budget: int = 600):
+    """Deterministic delta debugging of an op list: smallest sub-sequence (by chunk removal, then single removal) on which
+    ``oracle`` still fails with the same (clause, klass).  Returns (ops, Fail) or (ops, None) when the original history does
+    not reproduce outside the machine."""
+    calls = [0]
+
+    def fails(cand):
+        calls[0] += 1
+        f = _judge_ops(oracle, cand)
+        return f if (f is not None and f.clause == clause and f.klass == klass) else None
+
+    cur = list(ops)
+    fcur = fails(cur)
+    if fcur is None:
+        return ops, None
+    n = 2
+    while len(cur) >= 2 and calls[0] < budget:
+        chunk = max(1, len(cur) // n)
+        removed = False
+        for i in range(0, len(cur), chunk):
+            cand = cur[:i] + cur[i + chunk :]
+            if not cand:
+                continue
+            f = fails(cand)
+            if f is not None:
+                cur, fcur = cand, f
+                n = max(n - 1, 2)
+                removed = True
+                break
+            if calls[0] >= budget:
+                break
+        if not removed:
+            if chunk == 1:
+                break
+            n = min(len(cur), n * 2)
+    fcur.case = {"ops": cur}
+    return cur, fcur
 
 
 _SHARD_FN = None
